@@ -38,7 +38,9 @@ type scenario struct {
 	DeathOp     int     `json:"death_after_op,omitempty"`
 	Takeover    bool    `json:"holder_acquires_by_stale_takeover,omitempty"`              // live cases: the holder takes over a dead predecessor's stale lock (override)
 	Sibling     int     `json:"failed_attempts_on_the_holders_own_lock_object,omitempty"` // live cases: other goroutines of the holder's process try to acquire through the SAME lock object while it is held (and fail)
-	Previous    int     `json:"previous_holders"`                                         // idle earlier holders of the same lock id still alive
+	BeatFault   int     `json:"transient_fault_on_holder_op,omitempty"`                   // live cases: the j-th backend operation the holder issues after acquiring (a heartbeat open/write/stamp) fails once
+	BeatKind    string  `json:"transient_fault_kind,omitempty"`
+	Previous    int     `json:"previous_holders"` // idle earlier holders of the same lock id still alive
 	Policy      string  `json:"policy"`
 	AdvanceP    float64 `json:"advance_p"`
 	Index       int     `json:"index"`
@@ -212,6 +214,10 @@ func runScenario(r *vrun.Run, sc scenario, keep bool) *result {
 			}
 			res.holderAcquired = herr == nil
 			res.holderInc = w.CurrentInc()
+			if sc.Kind == "live" && sc.BeatFault > 0 && herr == nil {
+				// one transient I/O failure on a live holder's heartbeat (the counter restarts here)
+				w.FaultAt("holder", lockh.Fault{K: sc.BeatFault, Kind: sc.BeatKind})
+			}
 			if herr != nil && sc.Kind == "live" {
 				res.notes = append(res.notes, "holder failed to acquire: "+herr.Error())
 				return
@@ -365,6 +371,12 @@ func analyse(r *vrun.Run, res *result) {
 	r.Obs("scheduler_steps", int64(res.s.Steps))
 	r.Obs("heartbeat_and_dir_stamps", w.Stamps)
 	r.Obs("failed_attempts_on_the_holders_own_lock_object", int64(res.siblingFailed))
+	if sc.Kind == "live" && sc.BeatFault > 0 {
+		if hit := w.FaultHit["holder"]; hit != "" {
+			r.Obs("live_holds_with_one_transient_heartbeat_fault", 1)
+			r.ObsSet("transient_heartbeat_faults", hit)
+		}
+	}
 	r.ObsSet("policies", sc.Policy)
 	switch sc.Kind {
 	case "live":
@@ -561,7 +573,7 @@ func main() {
 				n = r.Pick(1, 4)
 			}
 			for k := 0; k < n; k++ {
-				cases = append(cases, scenario{Kind: "live", HoldPeriods: h, Observers: o, Acquire: acq[(k+o)%3], Previous: k % 2, Takeover: k%3 == 2, Sibling: []int{0, 0, 1, 3}[(k+h)%4], Policy: pols[k%2], AdvanceP: []float64{0.2, 0.5}[k%2], Stream: "live"})
+				cases = append(cases, scenario{Kind: "live", HoldPeriods: h, Observers: o, Acquire: acq[(k+o)%3], Previous: k % 2, Takeover: k%3 == 2, Sibling: []int{0, 0, 1, 3}[(k+h)%4], BeatFault: []int{0, 1, 0, 2, 3, 0, 5, 8, 0, 13}[(k+o+h)%10], BeatKind: []string{"err-before", "err-after", "enoent-before"}[(k+o)%3], Policy: pols[k%2], AdvanceP: []float64{0.2, 0.5}[k%2], Stream: "live"})
 			}
 		}
 	}
